@@ -18,13 +18,39 @@ PROPS = {
     'C01': dict(title='A handle resolves iff its entity is alive; stale handles never resolve',
                 coq=['props/C01.vo'], tags=[1],
                 streams=[('w1', 'S1', 40, 60), ('w2', 'S1', 20, 60), ('w1', 'S7', 20, 60)],
-                configs=['dbg', 'rel'],
-                need=['destroy', 'probe', 'create']),
+                configs=['dbg', 'rel'], need=['destroy', 'probe', 'create']),
+    'C02': dict(title='Every access path returns the entity\'s own, latest component values',
+                coq=['props/C02.vo'], tags=[2],
+                streams=[('w1', 'S2', 40, 70), ('w2', 'S2', 30, 70)],
+                configs=['dbg', 'rel'], need=['write', 'readall', 'create']),
+    'C03': dict(title='Arbitrary, forged or foreign handles are memory-safe and never match by accident',
+                coq=['props/C03.vo'], tags=[3],
+                streams=[('w1', 'S3', 50, 60), ('w2', 'S3', 20, 60)],
+                configs=['dbg', 'rel'], need=['probe', 'create']),
+    'C08': dict(title='No handle is ever issued twice within a world',
+                coq=['props/C08.vo'], tags=[8],
+                streams=[('w1', 'S7', 40, 60), ('w1', 'S1', 20, 60), ('w2', 'S7', 20, 60)],
+                configs=['dbg', 'rel-plain'], need=['create', 'destroy']),
+    'C09': dict(title='A direct handle never designates another entity and dies with any removal',
+                coq=['props/C09.vo'], tags=[9],
+                streams=[('w1', 'S8', 50, 60), ('w2', 'S8', 20, 60), ('w1', 'S6', 20, 50)],
+                configs=['dbg', 'rel'], need=['todirect', 'destroy']),
+    'C10': dict(title='A panic escaping any operation leaves the world consistent and memory-safe',
+                coq=['props/C10.vo'], tags=[10, 4],
+                streams=[('w1', 'S9', 40, 60), ('w1', 'S7', 30, 60), ('w2', 'S9', 20, 60)],
+                configs=['dbg', 'rel-plain'], need=['create', 'reg']),
+    'C12': dict(title='len and capacity are exact; creation respects capacity and the 2^24 limit',
+                coq=['props/C12.vo'], tags=[12],
+                streams=[('w1', 'S10', 50, 60), ('w2', 'S10', 20, 60)],
+                configs=['dbg', 'rel'], need=['create', 'createw', 'len']),
+    'C13': dict(title='A cloned world is observationally identical and thereafter independent',
+                coq=['props/C13.vo'], tags=[13],
+                streams=[('w1', 'S11', 40, 70), ('w2', 'S11', 20, 70)],
+                configs=['dbg', 'rel'], need=['clone', 'switch']),
     'C14': dict(title='Handle conversions are lossless, type-faithful and consistent with Eq/Hash',
                 coq=['props/C14.vo'], tags=[14],
                 streams=[('w1', 'H1', 40, 60), ('w2', 'H1', 40, 60)],
-                configs=['dbg', 'rel'],
-                need=['conv']),
+                configs=['dbg', 'rel'], need=['conv']),
 }
 
 THOROUGH_CONFIGS = ['dbg', 'rel', 'dbg-ev', 'dbg-wrap', 'dbg-all', 'rel-plain', 'rel-ev', 'rel-all']
